@@ -1,14 +1,70 @@
 /-
-  Driver handlers for the Format model. `handle op args` returns `none` when the
-  operation is not one of this file's.
+  Driver handlers for the Format model: `hparse`, `hmarshal`, `b64raw`, `b64std`.
 -/
 import AgeModel.Wire
+import AgeModel.Format
 namespace AgeModel
 namespace Exec
 namespace Format
+open AgeModel.Format Wire
+
+def renderStanza (s : Stanza) : String :=
+  ",".intercalate ((s.type :: s.args).map hexOrDash) ++ "|" ++ hexOrDash s.body
+
+def renderHeader (h : Header) : String :=
+  (if h.stanzas.isEmpty then "-" else ";".intercalate (h.stanzas.map renderStanza)) ++ " mac=" ++ hexOrDash h.mac
+
+def parseStanza (s : String) : Option Stanza :=
+  match splitOn s '|' with
+  | [ta, body] =>
+    match (splitOn ta ',').mapM unhex, unhex body with
+    | some (t :: args), some b => some { type := t, args := args, body := b }
+    | _, _ => none
+  | _ => none
+
+def parseHeaderArg (st mac : String) : Option Header := do
+  let ss ← if st = "-" then some [] else (splitOn st ';').mapM parseStanza
+  let m ← unhex mac
+  pure { stanzas := ss, mac := m }
+
+def errName : Err → String
+  | .intro => "intro" | .eof => "eof" | .footer => "footer" | .stanzaLine => "stanzaline"
+  | .bodyLine => "bodyline" | .fuel => "fuel"
 
 def handle (op : String) (args : List String) : Option String :=
   match op, args with
+  | "hparse", [b] =>
+    some <| match unhex b with
+    | none => "bad-args"
+    | some b =>
+      match parse b with
+      | .ok (h, rest) => s!"ok {renderHeader h} rest={sum rest}"
+      | .error _ => "err"
+  | "hparsee", [b] =>   -- with the error class (diagnostics)
+    some <| match unhex b with
+    | none => "bad-args"
+    | some b =>
+      match parse b with
+      | .ok (h, rest) => s!"ok {renderHeader h} rest={sum rest}"
+      | .error e => s!"err {errName e}"
+  | "hmarshal", [st, mac] =>
+    some <| match parseHeaderArg st mac with
+    | none => "bad-args"
+    | some h => sum (marshal h)
+  | "b64rawdec", [s] =>
+    some <| match unhex s with
+    | none => "bad-args"
+    | some s => match decodeString s with
+      | some b => "ok " ++ hexOrDash b
+      | none => "err"
+  | "b64stddec", [s] =>
+    some <| match unhex s with
+    | none => "bad-args"
+    | some s => match B64.decStd s with
+      | some b => "ok " ++ hexOrDash b
+      | none => "err"
+  | "b64rawenc", [s] => some <| match unhex s with | none => "bad-args" | some s => hexOrDash (B64.encRaw s)
+  | "b64stdenc", [s] => some <| match unhex s with | none => "bad-args" | some s => hexOrDash (B64.encStd s)
   | _, _ => none
 
 end Format
